@@ -28,6 +28,19 @@ func init() {
 		c.Rule("C15a tick loop: tickValue returns early only under tickValue < getNextTimeout(which); the loop calls getFrontTimer each iteration; its only exit is front expiry > tickValue, which stores that expiry with setNextTimeout; otherwise it calls delTimer(which, front expiry, front key) and then callbacks[which](ctx, front key, front data)")
 		fronts := c.CallsIn(tv, gft, false)
 		dels := c.CallsIn(tv, del, false)
+		if len(fronts) == 1 && len(dels) == 0 || len(fronts) == 0 {
+			// the obligation itself is missing: callbacks are fired from something other than the re-read front timer
+			fired := false
+			ir.EachInstr(tv, func(in ssa.Instruction) {
+				if call := ir.CallOf(in); call != nil && !call.IsInvoke() && call.StaticCallee() == nil && strings.Contains(ir.Desc(call.Value), ".callbacks[") {
+					fired = true
+				}
+			})
+			if fired {
+				c.Fail("C15a/tickValue/front-timer-re-read-and-deleted-each-iteration", c.P.Pos(tv.Pos()), "callbacks are fired without re-reading the store's front timer and deleting it through delTimer in the same iteration (e.g. from a snapshot taken before the callbacks ran): a timer deleted or added by an earlier callback in the same tick is not honoured")
+				return
+			}
+		}
 		if len(fronts) != 1 || len(dels) != 1 {
 			c.Undecided("C15a: expected one getFrontTimer and one delTimer call in tickValue, found %d and %d", len(fronts), len(dels))
 			return
